@@ -91,6 +91,56 @@ def history_call_modules():
   return sorted(mods)
 
 
+def store_write_sites():
+  """module:function of every site that writes a Buildable's `__arguments__` directly:
+  subscript assignment / deletion, mutating dict methods, or (re)binding the attribute."""
+  sites = set()
+  base = os.path.join(common.REPO, 'fiddle', '_src')
+  mutators = {'pop', 'popitem', 'clear', 'update', 'setdefault', '__setitem__', '__delitem__'}
+
+  def is_args_attr(n):
+    return isinstance(n, ast.Attribute) and n.attr == '__arguments__'
+
+  for dp, _, fns in os.walk(base):
+    for fn in sorted(fns):
+      if not fn.endswith('.py') or fn.endswith('_test.py'):
+        continue
+      rel = os.path.relpath(os.path.join(dp, fn), common.REPO)
+      try:
+        tree = ast.parse(open(os.path.join(dp, fn)).read())
+      except SyntaxError:
+        continue
+
+      def visit(node, func):
+        for child in ast.iter_child_nodes(node):
+          f = child.name if isinstance(child, (ast.FunctionDef, ast.AsyncFunctionDef)) else func
+          hit = False
+          if isinstance(child, (ast.Assign, ast.AugAssign, ast.AnnAssign)):
+            targets_ = child.targets if isinstance(child, ast.Assign) else [child.target]
+            for t in targets_:
+              if isinstance(t, ast.Subscript) and is_args_attr(t.value):
+                hit = True
+              if is_args_attr(t):
+                hit = True
+          if isinstance(child, ast.Delete):
+            for t in child.targets:
+              if isinstance(t, ast.Subscript) and is_args_attr(t.value):
+                hit = True
+          if isinstance(child, ast.Call):
+            fn_ = child.func
+            if isinstance(fn_, ast.Attribute) and fn_.attr in mutators and is_args_attr(fn_.value):
+              hit = True
+            if isinstance(fn_, ast.Attribute) and fn_.attr == '__setattr__':
+              for a in child.args:
+                if isinstance(a, ast.Constant) and a.value == '__arguments__':
+                  hit = True
+          if hit:
+            sites.add(f'{rel}:{f}')
+          visit(child, f)
+      visit(tree, '<module>')
+  return sorted(sites)
+
+
 def thread_local_classes():
   """(module, class) pairs deriving from threading.local in the C19 files."""
   out = []
@@ -120,6 +170,9 @@ def render() -> str:
       '',
       '/-- modules that call `History.add_*` (frames between a direct edit and the entry) -/',
       f'def historyCallModules : List String := {_lean_str_list(history_call_modules())}',
+      '',
+      '/-- every site that writes `__arguments__` directly (module:function) -/',
+      f'def storeWriteSites : List String := {_lean_str_list(store_write_sites())}',
       '',
       '/-- the `for op_type in (...)` tuple of `diffing._apply_changes` -/',
       f'def applyOrder : List String := {_lean_str_list(apply_order())}',
